@@ -113,6 +113,7 @@ MOLS = {
     "LiH": dict(atom="Li 0 0 0; H 0 0 1.6", spin=0),
     "HeH+": dict(atom="He 0 0 0; H 0 0 0.8", spin=0, charge=1),
     "H2": dict(atom="H 0 0 0; H 0 0 0.74", spin=0),
+    "HeH": dict(atom="He 0 0 0; H 0 0 0.9", spin=1),
     "He": dict(atom="He 0 0 0", spin=0),
     "NH2": dict(atom="N 0 0 0; H 0 0.8 0.6; H 0 -0.8 0.6", spin=1),
 }
